@@ -103,6 +103,22 @@ void query_all(M& mgr, const std::vector<const typename Db::Info*>& reg, const c
   for (auto z : reg) qs.push_back(Db::name(z));
   size_t npresent = qs.size();
   for (auto& s : absent_queries<Db>(reg, true)) qs.push_back(s);
+  // second order of the same queries: every present name immediately followed by the absent names derived from it (same
+  // prefix / same length and djb2 value) and by itself again - a "remember the last lookup" shortcut must not confuse them
+  {
+    auto djb = [](const std::string& t) { uint32_t h = 5381; for (unsigned char ch : t) h = h * 33 + ch; return h; };
+    std::vector<std::string> seq;
+    for (size_t pi = 0; pi < npresent; pi++) {
+      const std::string& pn = qs[pi];
+      seq.push_back(pn);
+      for (size_t ai = npresent; ai < qs.size(); ai++) {
+        const std::string& an = qs[ai];
+        bool related = (pn.size() >= 2 && an.size() + 1 >= pn.size() && an.compare(0, pn.size() - 1, pn, 0, pn.size() - 1) == 0) || (an.size() == pn.size() && djb(an) == djb(pn));
+        if (related) { seq.push_back(an); seq.push_back(pn); }
+      }
+    }
+    for (auto& t : seq) qs.push_back(t);
+  }
   for (size_t qi = 0; qi < qs.size(); qi++) {
     const std::string& q = qs[qi];
     int want = oracle_index(q);
